@@ -140,7 +140,7 @@ fam(ScenarioFamily('spawn', ('C06', 'C04', 'C05', 'C02'), gen.spawn_scenario, 20
 fam(ScenarioFamily('dupfwd', BUS_PROPS + ('C07',), gen.dupfwd_scenario, 300, 3000))
 fam(ScenarioFamily('later', BUS_PROPS, gen.later_scenario, 400, 4000))
 fam(EnumFamily('error_enum', ('C11', 'C01'), gen.error_base, gen.error_derive, 12, 200, 40, 120))
-fam(EnumFamily('stop_enum', ('C16',), gen.stop_base, gen.stop_derive, 12, 200, 40, 150))
+fam(EnumFamily('stop_enum', ('C16', 'C05', 'C06'), gen.stop_base, gen.stop_derive, 12, 200, 40, 150))
 fam(EnumFamily('cancel_enum', ('C16',), gen.stop_base, gen.cancel_derive, 6, 80, 30, 100))
 fam(EnumFamily('timeout_enum', ('C10', 'C08', 'C02', 'C06'), gen.timeout_base, gen.timeout_derive, 14, 250, 40, 150))
 
@@ -155,6 +155,9 @@ for _p in ('C01', 'C02', 'C03', 'C04', 'C05', 'C06', 'C08', 'C09', 'C11', 'C15')
     CHECKS[_p].families.append('dupfwd')
     CHECKS[_p].families.append('later')
 CHECKS['C08'].families.append('timeout_enum')
+CHECKS['C05'].families.append('stop_enum')
+CHECKS['C06'].families.append('stop_enum')
+CHECKS['C13'].families.append('forward_history')
 CHECKS['C02'].families.append('timeout_enum')
 CHECKS['C06'].families.append('timeout_enum')
 CHECKS['C08'].families.append('recursion')
